@@ -636,7 +636,7 @@ func fatalInLibrary(out string) bool {
 	if strings.Contains(out, "HARNESS-PANIC") {
 		return false
 	}
-	i := strings.Index(out, "fatal error:")
+	i := crashIndex(out)
 	if i < 0 {
 		return false
 	}
@@ -663,7 +663,7 @@ func firstLines(s string, n int) string {
 
 // crashSummary: the fatal error line and the frames of the library in the stack of the goroutine that died.
 func crashSummary(out string) string {
-	i := strings.Index(out, "fatal error:")
+	i := crashIndex(out)
 	if i < 0 {
 		return firstLines(out, 6)
 	}
@@ -687,4 +687,19 @@ func crashSummary(out string) string {
 		}
 	}
 	return strings.Join(lines, "\n")
+}
+
+// crashIndex finds the message with which the Go runtime ended the process: a fatal error, or a panic that nothing
+// recovered (for instance in a goroutine the library started itself).
+func crashIndex(out string) int {
+	if i := strings.Index(out, "fatal error:"); i >= 0 {
+		return i
+	}
+	if strings.HasPrefix(out, "panic: ") {
+		return 0
+	}
+	if i := strings.Index(out, "\npanic: "); i >= 0 {
+		return i + 1
+	}
+	return -1
 }
